@@ -123,10 +123,10 @@ func runCase(kind, note string, d *desc, F []string, mk func() []*request) sexp.
 }
 
 // the apifu route (see apifu.go)
-func runApifuCase(F []string) sexp.Node {
+func runApifuCase(F []string, ws bool) sexp.Node {
 	d := apifuDesc()
 	e := erase(d, F)
-	head := []sexp.Node{sexp.T("kind", sexp.Sym("apifu")), sexp.T("note", sexp.Str("")), d.sexp(), sexp.T("features", strs(F)...),
+	head := []sexp.Node{sexp.T("kind", sexp.Sym("apifu")), sexp.T("note", sexp.Str(map[bool]string{false: "http", true: "graphql-ws"}[ws])), d.sexp(), sexp.T("features", strs(F)...),
 		sexp.T("all", strs(alphabet)...)}
 	on := subset([]string{"fa"}, F)
 	all := graphql.NewFeatureSet(alphabet...)
@@ -142,6 +142,11 @@ func runApifuCase(F []string) sexp.Node {
 	}
 	a := &side{api: apiA, features: graphql.NewFeatureSet(F...), log: logA}
 	b := &side{api: apiB, features: all, log: logB}
+	if ws {
+		a.ws, b.ws = openWS(apiA, a.features), openWS(apiB, b.features)
+		defer a.ws.close()
+		defer b.ws.close()
+	}
 	names := probeNames(d)
 	reqs := []*request{{kind: "introspect", query: probeQuery(names), names: names}, {kind: "stdintro", query: string(introspection.Query)}}
 	for _, q := range apifuDocs {
@@ -163,6 +168,10 @@ func runApifuCase(F []string) sexp.Node {
 			panic(err)
 		}
 		c := &side{api: apiC, features: all, log: logC}
+		if ws {
+			c.ws = openWS(apiC, all)
+			defer c.ws.close()
+		}
 		o := c.run("{ __schema { types { name } } }", nil)
 		var reg []string
 		sc, _ := o.data.get("__schema")
@@ -192,6 +201,13 @@ func randomRequests(r *rng.R, d *desc, std bool, nChains, nDocs int) []*request 
 		reqs = append(reqs, &request{kind: "doc", query: q, vars: vars, tags: tags})
 	}
 	return reqs
+}
+
+func min(a, b int) int {
+	if a < b {
+		return a
+	}
+	return b
 }
 
 func subsetsOf(xs []string) [][]string {
@@ -226,10 +242,36 @@ func main() {
 				})
 			}
 		}
+		// 1a. bounded-exhaustive: every well-formed chain of at most 3 (thorough: 4) nodes over the names of
+		// each witness schema, under every feature set, in batches
+		maxLen := 3
+		if h.Thorough() {
+			maxLen = 4
+		}
+		for _, w := range witnesses() {
+			all := enumChains(w.make(), maxLen)
+			for _, F := range subsetsOf(w.feats) {
+				for lo := 0; lo < len(all); lo += 150 {
+					w, F, batch := w, F, all[lo:min(lo+150, len(all))]
+					h.Case(func(*rng.R) sexp.Node {
+						d := w.make()
+						return runCase("exhaustive", w.name, d, F, func() []*request {
+							names := probeNames(d)
+							reqs := []*request{{kind: "introspect", query: probeQuery(names), names: names}}
+							for _, c := range batch {
+								reqs = append(reqs, &request{kind: "chain", query: chainText(c), chain: c})
+							}
+							return reqs
+						})
+					})
+				}
+			}
+		}
 		// 1b. the apifu route: Config.Features plumbing, a gated apifu.Connection
 		for _, F := range subsetsOf([]string{"fa", "fb"}) {
 			F := F
-			h.Case(func(*rng.R) sexp.Node { return runApifuCase(F) })
+			h.Case(func(*rng.R) sexp.Node { return runApifuCase(F, false) })
+			h.Case(func(*rng.R) sexp.Node { return runApifuCase(F, true) })
 		}
 		// 2. random schemas obeying the construction rules
 		n, nh := 1500, 1800
